@@ -188,6 +188,14 @@ class Recorder(object):
         self.log.append(("close",))
 
 
+class _SubAssertion(AssertionError):
+    pass
+
+
+class _SubInterrupt(KeyboardInterrupt):
+    pass
+
+
 def run_case(prog, cfg=None, faults=None, cleanups=None, hooks=False, record_events=False,
              formatters=None, keep_model=False, reporters=None, async_steps=False, texts=None,
              step_extra=None, probe_status=False, second_run=False, second_cfg=None, reset_between=True,
@@ -255,6 +263,15 @@ def run_case(prog, cfg=None, faults=None, cleanups=None, hooks=False, record_eve
                         obj = getattr(ctx, attr, None)
                         if obj is not None:
                             obj.status
+                if kind == "failS":
+                    raise _SubAssertion("boom %d" % n)
+                if kind == "pendingS":
+                    from behave.exception import PendingStepError
+                    raise PendingStepError("pending %d" % n)
+                if kind == "errorN":
+                    raise NotImplementedError("not implemented %d" % n)
+                if kind == "kbiS":
+                    raise _SubInterrupt()
                 if kind == "fail":
                     assert False, "boom %d" % n
                 if kind == "error":
@@ -279,7 +296,7 @@ def run_case(prog, cfg=None, faults=None, cleanups=None, hooks=False, record_eve
                 return async_run_until_complete(astep)
             return step_impl
 
-        for kind in P.OUTCOMES:
+        for kind in P.OUTCOMES + P.CLASS_VARIANTS:
             if kind != "undefined":
                 reg.add_step_definition("step", "step {n:d} %s" % kind, make_step(kind))
         if cfg.get("convert") or "'convert" in repr(prog):
